@@ -55,6 +55,12 @@ def run(rep, ctx):
         borrow(rep, c11.r3_index, ctx, "C11.R3", "C05.R10")
     except AnalysisError as e:
         rep.error("C05.R10", str(e))
+    from . import c15
+    rep.rule("C05.R11", "a verdict cached by a failed creation does not outlive the registration that makes the creation valid: registration methods clear the verdict memo (shared with C15.R3)")
+    try:
+        borrow(rep, c15.r3_coherence, ctx, "C15.R3", "C05.R11", keep=lambda o: "_category_unit_valid" in o.key)
+    except AnalysisError as e:
+        rep.error("C05.R11", str(e))
     rep.not_decided += [
         "false rejection of dimension-compatible operands written with different symbols (m.m vs m2)",
         "units whose table row carries a wrong quantity type (table content: C06/C14)",
